@@ -1,0 +1,28 @@
+package types
+
+import (
+	"bytes"
+	"sort"
+
+	"github.com/gogo/protobuf/proto"
+
+	sdk "github.com/cosmos/cosmos-sdk/types"
+)
+
+// EmitTypedEvent emits a typed event with its attributes sorted by key.
+//
+// sdk.EventManager.EmitTypedEvent (cosmos-sdk v0.45.2) builds the attribute list by ranging over a Go
+// map (types.TypedEventToEvent), so the attribute ORDER of every typed event differs from node to node
+// and from run to run. Events are part of the DeliverTx / EndBlock responses every node reports for the
+// same block; they must be a function of the block.
+func EmitTypedEvent(ctx sdk.Context, tev proto.Message) error {
+	event, err := sdk.TypedEventToEvent(tev)
+	if err != nil {
+		return err
+	}
+	sort.SliceStable(event.Attributes, func(i, j int) bool {
+		return bytes.Compare(event.Attributes[i].Key, event.Attributes[j].Key) < 0
+	})
+	ctx.EventManager().EmitEvent(event)
+	return nil
+}
